@@ -86,7 +86,6 @@ Record fdesc := FileD {
 (* ================================================================ 2. descriptor_of *)
 
 Local Open Scope string_scope.
-Definition s_thrift_suffix : bytes := B ".thrift".
 Definition s_true : bytes := B "true".
 Definition s_false : bytes := B "false".
 Definition s_star : bytes := B "*".
@@ -170,13 +169,11 @@ Definition const_desc (path : bytes) (c : constant) : constdesc :=
   ConstD path (co_name c) (type_desc path (co_type c)) (cv_desc (co_value c)) (annos_map (co_annos c))
          (co_comments c) None.
 
-(* strings.TrimSuffix *)
-Definition trim_suffix (s suf : bytes) : bytes :=
-  if is_prefix (rev suf) (rev s) then firstn (List.length s - List.length suf) s else s.
-
 (* the key under which an include is entered: last element of the "/"-split of the included file's
-   Filename, without a ".thrift" suffix *)
-Definition include_alias (path : bytes) : bytes := trim_suffix (base_name path) s_thrift_suffix.
+   Filename without its extension (strings.TrimSuffix(base, filepath.Ext(base))) — the prefix the IDL
+   writes before the names of the include, semantic.IDLPrefix.  This is the repaired code
+   (proposed_fixes/C15-include-prefix-any-extension.patch; it used to cut ".thrift" only). *)
+Definition include_alias (path : bytes) : bytes := idl_prefix path.
 
 (* the Filename of the file an include refers to (inc.GetReference().Filename; a nil Reference makes
    the Go code panic — the parser run with recursive = true always sets it) *)
@@ -416,13 +413,11 @@ Definition file_annos_ok (f : file) : bool :=
 (* no two includes of the file share a base name *)
 Definition distinct_basenames (f : file) : bool :=
   nodupb (map (fun i => include_alias (include_path i)) (f_includes f)).
-(* every include was parsed (Reference set), the file found has the base name the statement wrote,
-   and it is called <something>.thrift: then the key of the descriptor's include map is the prefix
-   the IDL uses for the file *)
+(* every include was parsed (Reference set) and the file found has the base name the statement
+   wrote: then the key of the descriptor's include map is the prefix the IDL uses for the file *)
 Definition includes_plain (f : file) : bool :=
   forallb (fun i => match in_ref i with
-                    | Some p => beqb (base_name (in_path i)) (base_name p) &&
-                                is_prefix (rev s_thrift_suffix) (rev (base_name p))
+                    | Some p => beqb (base_name (in_path i)) (base_name p)
                     | None => false end) (f_includes f).
 
 (* ================================================================ 4. wire codec *)
